@@ -470,6 +470,9 @@ fn record_scenarios(args: &Args, out: &mut Out) -> (Recorder, Vec<String>) {
     let mut hooks = Hooks { rec: Recorder { full_every: args.u64("full", 25) as usize, ..Default::default() }, out, limit, scenarios: vec![] };
     let mut ex = TransactionScenarioExecutor::new(db, NetworkDefinition::simulator());
     let names = args.str("names", "");
+    // An engine panic, or a scenario whose own expectation fails (the executor unwraps it), is DATA about the code under
+    // test: it is caught and recorded as a "panic" event, which no action of the trace specification matches.
+    let run = catch(|| {
     if names.is_empty() {
         ex.execute_every_protocol_update_and_scenario(&mut hooks).expect("scenarios");
     } else {
@@ -484,6 +487,12 @@ fn record_scenarios(args: &Args, out: &mut Out) -> (Recorder, Vec<String>) {
             &VmModules::default(),
         )
         .expect("scenarios");
+    }
+    });
+    if let Err(msg) = run {
+        let scenario = hooks.scenarios.last().cloned().unwrap_or_default();
+        let msg: String = msg.chars().take(600).collect();
+        hooks.out.emit(&json!({"a": "panic", "scenario": scenario, "after_transactions": hooks.rec.txs, "msg": msg}));
     }
     (hooks.rec, hooks.scenarios)
 }
